@@ -531,7 +531,8 @@ fn vm_io(i: &Input) -> String {
     let access = Access::new(Arc::new(sols), get(i, "index").parse().unwrap_or(0));
     let ret = if get(i, "state_ret") == "err" { None } else {
         Some(get(i, "state_ret").split(';').filter(|x| !x.is_empty()).map(|x| if x == "-" { vec![] } else { words(x) }).collect::<Vec<_>>()) };
-    let st = TwoViews(ScriptState { tag: "pre", ret: ret.clone(), log: Default::default() }, ScriptState { tag: "post", ret, log: Default::default() });
+    // the repo's own `impl StateReads for (S, P)` supplies the two views
+    let st = (ScriptState { tag: "pre", ret: ret.clone(), log: Default::default() }, ScriptState { tag: "post", ret, log: Default::default() });
     let mut vm = Vm::default();
     vm.stack = Stack::try_from(words(get(i, "stack"))).expect("REPLAY-HARNESS: initial stack");
     vm.memory = Memory::try_from(words(get(i, "memory"))).expect("REPLAY-HARNESS: initial memory");
